@@ -203,7 +203,7 @@ class SetextHeading(BlockToken):
     def __init__(self, lines):
         self.underline = lines.pop().rstrip()
         self.level = 1 if self.underline.endswith('=') else 2
-        content = '\n'.join([line.strip() for line in lines])
+        content = '\n'.join([line.strip(' \t\r\n') for line in lines])
         super().__init__(content, span_token.tokenize_inner)
 
     @classmethod
@@ -318,7 +318,9 @@ class Paragraph(BlockToken):
         return super().__new__(cls)
 
     def __init__(self, lines):
-        content = ''.join([line.lstrip() for line in lines]).strip()
+        # only spaces and tabs are stripped: other Unicode whitespace (e.g. a no-break space)
+        # is part of the text
+        content = ''.join([line.lstrip(' \t') for line in lines]).strip(' \t\r\n')
         super().__init__(content, span_token.tokenize_inner)
 
     @staticmethod
